@@ -29,9 +29,13 @@ if os.path.realpath(REPO) != "/repo":
     subprocess.run(["rsync", "-a", "--delete", "--exclude", "*.vo", "--exclude", "*.vok", "--exclude", "*.vos", "--exclude", "*.glob", "--exclude", ".*.aux",
                     "--exclude", "*.sig", "--exclude", "Gen/", os.path.join(ROOT, "coq", "theories") + "/", os.path.join(COQ, "theories") + "/"], check=False)
     os.makedirs(os.path.join(COQ, "theories", "Gen"), exist_ok=True)
+    # evidence and replay files of scratch runs must never replace those of the real tree
+    EVID = os.path.join(WORK, "evidence")
+    OUT = os.path.join(WORK, "out")
 TH = os.path.join(COQ, "theories")
-OUT = os.path.join(ROOT, "out")
-EVID = os.path.join(ROOT, "evidence")
+if os.path.realpath(REPO) == "/repo":
+    OUT = os.path.join(ROOT, "out")
+    EVID = os.path.join(ROOT, "evidence")
 PYTHON = "/venv/bin/python"
 LIBOSMO = os.path.join(REPO, "src/shared/libosmocore")
 NPROC = os.cpu_count() or 4
